@@ -74,6 +74,19 @@ ORACLES = {
     'close': ('close_file', True, False, []),
 }
 IGNORED_PARAMS = {'__exit__': {'exc_type', 'exc_value', 'traceback'}}
+CFG_TYPE = 'pcfg'          # record of the attributes read through self.<attr>
+LOCAL_ELT = {}             # method -> {local list name: element type}: elements appended to it are coerced
+
+# ---- second group: small pure methods of other classes (Gen: PureSrc.v; equivalences: coq/tie/PureEquiv.v)
+PURE_SPECS = [
+    dict(out='SrcLp.v', file='laserpath.py', cls='LaserPath', cfg_type='lp_cfg', cfg_attrs={'speed', 'cmd_rate_max'},
+         methods={'num_subdivisions': ('method', [('l_curve', 'Q'), ('speed', 'option Q')], 'Z')}, local_elt={}),
+    dict(out='SrcNw.v', file='waveguide.py', cls='NasuWaveguide', cfg_type='nw_cfg', cfg_attrs={'adj_scan'},
+         methods={'adj_scan_order': ('property', [], 'list Q')}, local_elt={'adj_scan_order': {'adj_scan_list': 'Q'}}),
+    dict(out='SrcTc.v', file='trench.py', cls='TrenchColumn', cfg_type='tc_cfg',
+         cfg_attrs={'bridge', 'beam_waist', 'round_corner', 'h_box', 'z_off', 'deltaz'},
+         methods={'adj_bridge': ('property', [], 'Q'), 'n_repeat': ('property', [], 'Z')}, local_elt={}),
+]
 EXC = {'ValueError': 'EValue', 'FileNotFoundError': 'EFileNotFound', 'TypeError': 'EType'}
 
 HEADER_WITH = ("With(items=[withitem(context_expr=Call(func=Name(id='open'), args=[BinOp(left=BinOp(left=Attribute("
@@ -253,7 +266,7 @@ class Tr:
                 and isinstance(e.right, ast.UnaryOp) and isinstance(e.right.op, ast.USub)):
             eff, t = self.E(e.right.operand, env)
             return eff, f'(pow10_neg {t})'
-        ops = {ast.Add: 'pyadd', ast.Sub: 'pysub', ast.Mult: 'pymul', ast.Mod: 'pymod'}
+        ops = {ast.Add: 'pyadd', ast.Sub: 'pysub', ast.Mult: 'pymul', ast.Mod: 'pymod', ast.Div: 'pydiv', ast.FloorDiv: 'pyfloordiv'}
         if type(e.op) not in ops:
             raise Unsupported(f'binary op {type(e.op).__name__}')
         e1, t1 = self.E(e.left, env)
@@ -341,6 +354,10 @@ class Tr:
         if isinstance(it, ast.Call):
             f = it.func
             fname = f.id if isinstance(f, ast.Name) else (f.attr if isinstance(f, ast.Attribute) else None)
+            if fname == 'range' and isinstance(f, ast.Name) and len(it.args) == 2 and not it.keywords:
+                e1, t1 = self.E(it.args[0], env)
+                e2, t2 = self.E(it.args[1], env)
+                return e1 + e2, f'(zrange {t1} {t2})'
             if fname in ('zip', 'zip_longest') and not it.keywords:
                 effs, ts = [], []
                 for a in it.args:
@@ -396,6 +413,9 @@ class Tr:
             if f.attr == 'size' and isinstance(f.value, ast.Name) and f.value.id == 'np' and len(e.args) == 1:
                 eff, t = self.E(e.args[0], env)
                 return eff, f'(py_len {t})'
+            if f.attr == 'ceil' and isinstance(f.value, ast.Name) and f.value.id in ('np', 'math') and len(e.args) == 1:
+                eff, t = self.E(e.args[0], env)
+                return eff, f'(Qceiling {t})'
             if f.attr == 'isfinite' and isinstance(f.value, ast.Name) and f.value.id == 'math' and len(e.args) == 1:
                 eff, t = self.E(e.args[0], env)
                 return eff, f'(isfinite {t})'
@@ -404,6 +424,9 @@ class Tr:
         if isinstance(f, ast.Name):
             if dump(e) == LISTCAST_FLATTEN:
                 return [], '(listcast_flatten variables)'
+            if f.id == 'abs' and len(e.args) == 1:
+                eff, t = self.E(e.args[0], env)
+                return eff, f'(pyabs {t})'
             if f.id == 'len' and len(e.args) == 1:
                 eff, t = self.E(e.args[0], env)
                 return eff, f'(py_len {t})'
@@ -597,11 +620,19 @@ class Tr:
                 else:
                     raise Unsupported(f'self.{attr}.{meth}')
                 return self.wrap(eff, f'{act} ;;; {self.T(rest, env, tail)}')
-            # local list: args.append(e)
-            if isinstance(f, ast.Attribute) and isinstance(f.value, ast.Name) and f.attr == 'append' and len(v.args) == 1:
-                eff, t = self.E(v.args[0], env)
+            # local list: args.append(e) / args.extend([e1, e2])
+            if isinstance(f, ast.Attribute) and isinstance(f.value, ast.Name) and f.attr in ('append', 'extend') and len(v.args) == 1:
                 n = cname(f.value.id)
-                return self.wrap(eff, f'let {n} := ({n} ++ [{t}])%list in {self.T(rest, env, tail)}')
+                elt = LOCAL_ELT.get(env.meth, {}).get(f.value.id)
+                items = [v.args[0]] if f.attr == 'append' else (v.args[0].elts if isinstance(v.args[0], ast.List) else None)
+                if items is None:
+                    raise Unsupported('extend of a local list by something other than a list display')
+                effs, ts = [], []
+                for it in items:
+                    eff, t = self.E(it, env)
+                    effs += eff
+                    ts.append(f'(to_float {t})' if elt == 'Q' else t)
+                return self.wrap(effs, f'let {n} := ({n} ++ [{"; ".join(ts)}])%list in {self.T(rest, env, tail)}')
         raise Unsupported(f'expression statement {dump(s)[:200]}')
 
     def T_Assign(self, s, rest, env, tail):
@@ -621,6 +652,9 @@ class Tr:
                 env.optvars.add(tg.id)
                 return f'let {cname(tg.id)} := None in {self.T(rest, env, tail)}'
             eff, t = self.E(s.value, env)
+            elt = LOCAL_ELT.get(env.meth, {}).get(tg.id)
+            if elt and isinstance(s.value, ast.List) and not s.value.elts:
+                t = f'([] : list {elt})'
             if tg.id in env.optvars:
                 t = f'(Some {t})'
             return self.wrap(eff, f'let {cname(tg.id)} := {t} in {self.T(rest, env, tail)}')
@@ -675,7 +709,7 @@ class Tr:
                 inner = self.wrap(eff, f'if {t} then {then_t} else {else_t}')
                 return f'match {cname(name)} with None => {then_t} | Some {cname(name)} => {inner} end'
         eff, t = self.E(test, env)
-        if isinstance(test, (ast.Name, ast.Attribute)):
+        if isinstance(test, (ast.Name, ast.Attribute, ast.BinOp)):
             t = f'(truthy {t})'
         return self.wrap(eff, f'if {t} then {then_t} else {else_t}')
 
@@ -685,6 +719,10 @@ class Tr:
         single = isinstance(s.target, ast.Name)
         ei, ti = self.E_iter(s.iter, env, single)
         assigned = sorted({n.id for b in s.body for n in ast.walk(b) if isinstance(n, ast.Name) and isinstance(n.ctx, ast.Store)})
+        mutated = {n.func.value.id for b in s.body for n in ast.walk(b)
+                   if isinstance(n, ast.Call) and isinstance(n.func, ast.Attribute) and isinstance(n.func.value, ast.Name)
+                   and n.func.attr in ('append', 'extend') and n.func.value.id != 'self'}
+        assigned = sorted(set(assigned) | mutated)
         targets = {n.id for n in ast.walk(s.target) if isinstance(n, ast.Name)}
         carried = [a for a in assigned if a not in targets and a in env.defined]
         for a in assigned:
@@ -743,7 +781,7 @@ class Tr:
         params = ''.join(f' ({cname(p)} : {t})' for p, t in sig)
         if kind == 'ctx':
             params += ' (body__ : MP unit)'
-        return f'Definition src_{name} (c : pcfg){params} : MP {rty} :=\n  {body}.\n'
+        return f'Definition src_{name} (c : {CFG_TYPE}){params} : MP ({rty}) :=\n  {body}.\n'
 
 
 PREAMBLE = '''(* GENERATED by harness/py2coq.py from %s -- do not edit.
@@ -775,21 +813,60 @@ def translate(src_path: str) -> str:
     return ''.join(out)
 
 
-def main(argv):
-    repo = os.environ.get('FEMTO_REPO') or '/repo'
-    src = argv[0] if argv else f'{repo}/src/femto/pgmcompiler.py'
-    dst = pathlib.Path(argv[1] if len(argv) > 1 else pathlib.Path(__file__).resolve().parents[1] / 'coq/theories/Gen/PgmSrc.v')
+PURE_PREAMBLE = '''(* GENERATED by harness/py2coq.py from src/femto/%s -- do not edit.
+   Small pure methods (point count, Nasu pass order, number of wall passes, adjusted bridge); PureEquiv.v relates them to
+   Path/Sampling.v, Writers/Writers.v, Trench/TreeProofs.v. *)
+From Coq Require Import List Bool ZArith NArith QArith Qabs Qround String Ascii.
+Import ListNotations.
+From Femto Require Import Base.Num.
+From FemtoTie Require Import PyPrelude PgmState PureState.
+Local Open Scope string_scope.
+Local Open Scope list_scope.
+
+'''
+
+
+def translate_pure(src_dir: str, spec: dict) -> str:
+    global METHODS, CFG_ATTRS, STATE_ATTRS, ORACLES, CFG_TYPE, LOCAL_ELT
+    saved = (METHODS, CFG_ATTRS, STATE_ATTRS, ORACLES, CFG_TYPE, LOCAL_ELT)
+    out = [PURE_PREAMBLE % spec['file']]
     try:
-        text = translate(src)
-    except Unsupported as e:
-        print(f'py2coq: unsupported construct: {e}', file=sys.stderr)
-        return 3
-    except SyntaxError as e:
-        print(f'py2coq: cannot parse {src}: {e}', file=sys.stderr)
-        return 3
-    if not dst.exists() or dst.read_text() != text:
-        dst.write_text(text)
-        print(f'py2coq: wrote {dst}')
+        mod = ast.parse(pathlib.Path(src_dir, spec['file']).read_text())
+        cls = [n for n in mod.body if isinstance(n, ast.ClassDef) and n.name == spec['cls']]
+        if len(cls) != 1:
+            raise Unsupported(f"class {spec['cls']} not found in {spec['file']}")
+        METHODS, CFG_ATTRS, STATE_ATTRS, ORACLES = spec['methods'], spec['cfg_attrs'], {}, {}
+        CFG_TYPE, LOCAL_ELT = spec['cfg_type'], spec['local_elt']
+        tr = Tr(cls[0])
+        out.append('\n'.join(f"Notation cfg_{a} := {spec['cfg_type'][:2]}_{a}." for a in sorted(CFG_ATTRS)) + '\n\n')
+        for name in METHODS:
+            out.append(tr.method(name))
+            out.append('\n')
+    finally:
+        METHODS, CFG_ATTRS, STATE_ATTRS, ORACLES, CFG_TYPE, LOCAL_ELT = saved
+    return ''.join(out)
+
+
+def main(argv):
+    """py2coq.py <dir of femto sources> <output dir> <group>...   groups: pgm (PgmSrc.v), SrcLp.v, SrcNw.v, SrcTc.v"""
+    if len(argv) < 3:
+        print(main.__doc__, file=sys.stderr)
+        return 2
+    src_dir, out_dir, groups = pathlib.Path(argv[0]), pathlib.Path(argv[1]), argv[2:]
+    for g in groups:
+        try:
+            if g == 'pgm':
+                name, text = 'PgmSrc.v', translate(str(src_dir / 'pgmcompiler.py'))
+            else:
+                spec = [sp for sp in PURE_SPECS if sp['out'] == g][0]
+                name, text = g, translate_pure(str(src_dir), spec)
+        except Unsupported as e:
+            print(f'py2coq: unsupported construct ({g}): {e}', file=sys.stderr)
+            return 3
+        except (SyntaxError, OSError) as e:
+            print(f'py2coq: cannot read the source for {g}: {e}', file=sys.stderr)
+            return 3
+        (out_dir / name).write_text(text)
     return 0
 
 
